@@ -2362,6 +2362,13 @@ mod generics_search {
             self.found |= tp.path.get_ident().is_some_and(|ident| {
                 self.search.types.contains(ident) || self.search.consts.contains(ident)
             });
+            // Associated type of a type parameter, written in the shorthand form (`T::Assoc`).
+            self.found |= tp.qself.is_none()
+                && tp.path.leading_colon.is_none()
+                && tp.path.segments.len() > 1
+                && tp.path.segments.first().is_some_and(|seg| {
+                    seg.arguments.is_none() && self.search.types.contains(&seg.ident)
+                });
 
             syn::visit::visit_type_path(self, tp)
         }
